@@ -254,6 +254,75 @@ fn api_strict_lenient(args: &[String]) {
     println!("OK {}", n);
 }
 
+/// C02 on the public API: one document.  Loading (strict and lenient) and the header probe must not panic; every
+/// error and every warning that names a line names one in 1..=1+newlines; a buffer that loads is accepted by the probe.
+fn lines_one(doc: &[u8]) -> Result<(), String> {
+    use autosar_data::*;
+    let nl = doc.iter().filter(|c| **c == b'\n').count();
+    fn line_of(e: &AutosarDataError) -> Option<usize> {
+        match e {
+            AutosarDataError::ParserError { line, .. } => Some(*line),
+            AutosarDataError::LexerError { line, .. } => Some(*line),
+            _ => None,
+        }
+    }
+    let mut loads = false;
+    for strict in [true, false] {
+        let d = doc.to_vec();
+        let r = panic::catch_unwind(move || {
+            let m = AutosarModel::new();
+            match m.load_buffer(&d, "f.arxml", strict) {
+                Ok((_, w)) => (true, w.iter().map(|x| (line_of(x), x.to_string())).collect::<Vec<_>>()),
+                Err(e) => (false, vec![(line_of(&e), e.to_string())]),
+            }
+        });
+        let (ok, found) = match r {
+            Ok(x) => x,
+            Err(_) => return Err(format!("load_buffer(strict={}) panicked: {}", strict, super::LAST.lock().unwrap().take().unwrap_or_default())),
+        };
+        if ok { loads = true; }
+        for (l, text) in found {
+            if let Some(l) = l {
+                if l < 1 || l > nl + 1 {
+                    return Err(format!("load_buffer(strict={}) reports line {} but the input has only {} line(s): {}", strict, l, nl + 1, text));
+                }
+            }
+        }
+    }
+    let d = doc.to_vec();
+    match panic::catch_unwind(move || check_buffer(&d)) {
+        Ok(accepts) => if loads && !accepts { return Err("check_buffer rejects a buffer that load_buffer accepts".to_string()); },
+        Err(_) => return Err(format!("check_buffer panicked: {}", super::LAST.lock().unwrap().take().unwrap_or_default())),
+    }
+    Ok(())
+}
+
+/// api lines <corpus-file> <mutate:0|1> : every document and, with mutate=1, every single-byte deletion, every
+/// insertion of a newline and every truncation of it
+fn api_lines(args: &[String]) {
+    let text = std::fs::read_to_string(&args[0]).unwrap();
+    let mutate = args.get(1).map(|s| s == "1").unwrap_or(false);
+    let mut n = 0u64;
+    for line in text.lines() {
+        let doc = unhex(line.trim_start_matches('!').trim());
+        n += 1;
+        if let Err(e) = lines_one(&doc) { println!("FAIL {} :: document {}", e, hex(&doc)); return; }
+        if mutate {
+            for i in 0..doc.len() {
+                let mut m = doc.clone(); m.remove(i);
+                n += 1;
+                if let Err(e) = lines_one(&m) { println!("FAIL {} :: document {}", e, hex(&m)); return; }
+                let mut m = doc.clone(); m.insert(i, b'\n');
+                n += 1;
+                if let Err(e) = lines_one(&m) { println!("FAIL {} :: document {}", e, hex(&m)); return; }
+                n += 1;
+                if let Err(e) = lines_one(&doc[..i]) { println!("FAIL {} :: document {}", e, hex(&doc[..i])); return; }
+            }
+        }
+    }
+    println!("OK {}", n);
+}
+
 pub fn command(cmd: &str, args: &[String]) {
     match cmd {
         "api" if args.get(0).map(|s| s.as_str()) == Some("strictlenient") => api_strict_lenient(&args[1..]),
@@ -261,6 +330,10 @@ pub fn command(cmd: &str, args: &[String]) {
             match strict_lenient_one(&unhex(&args[1])) { Ok(()) => println!("{{\"outcome\":\"ok\"}}"), Err(e) => println!("{{\"outcome\":\"panic\",\"message\":{:?}}}", e) }
         }
         "api" if args.get(0).map(|s| s.as_str()) == Some("sort3") => api_sort3(&args[1..]),
+        "api" if args.get(0).map(|s| s.as_str()) == Some("lines") => api_lines(&args[1..]),
+        "api" if args.get(0).map(|s| s.as_str()) == Some("lines1") => {
+            match lines_one(&unhex(&args[1])) { Ok(()) => println!("{{\"outcome\":\"ok\"}}"), Err(e) => println!("{{\"outcome\":\"panic\",\"message\":{:?}}}", e) }
+        }
         "batch" => batch(args),
         "ground" => ground(args),
         "find" => finder(args),
